@@ -613,11 +613,17 @@ func c17C(c *core.Case) {
 	}
 	wb := wal.Bytes()
 	op := []string{"valid", "bitflip", "truncate", "zero", "swap_salt", "random", "patch_header", "old_generation", "hostile_frame", "other_page_size"}[c.Rng.IntN(10)]
+	// page0: a checksum-correct frame for page number 0. SQLite ends the valid
+	// prefix there; the property defines validity by salts and checksums alone, so
+	// LiteFS may go either way about the transaction that holds the frame - but
+	// page 0 is none of the database's pages and must not be written anywhere.
+	page0 := false
 	switch op {
 	case "hostile_frame":
 		// one more committed transaction holding a checksum-correct frame for a
 		// page far outside the database
-		hp := []uint32{size + 1, 5000, 0xFFFFFFFF, ref.LockPgno(ps)}[c.Rng.IntN(4)]
+		hp := []uint32{size + 1, 5000, 0xFFFFFFFF, ref.LockPgno(ps), 0, 0}[c.Rng.IntN(6)]
+		page0 = hp == 0
 		page := pd.RandPage()
 		wb = append(wb, w.Frame(hp, 0, page)...)
 		wb = append(wb, page...)
@@ -704,6 +710,10 @@ func c17C(c *core.Case) {
 	c.Count("C_op_"+op, 1)
 	detail := map[string]any{"page_size": ps, "big_endian": be, "op": op, "wal_len": len(wb), "wal_head": fmt.Sprintf("%x", wb[:minInt(len(wb), 48)])}
 	scan := ref.ScanWAL(wb)
+	if page0 {
+		c.Count("C_page0_frames", 1)
+		scan = ref.ScanWALChecksumsOnly(wb)
+	}
 
 	// (1) LiteFS's WALReader frame sequence == reference valid prefix
 	type fr struct{ pgno, commit uint32 }
@@ -747,6 +757,10 @@ func c17C(c *core.Case) {
 			return
 		}
 		ok := len(got) == len(scan.Frames)
+		if page0 && !ok {
+			scan = ref.ScanWAL(wb) // SQLite's stricter rule is as good
+			ok = len(got) == len(scan.Frames)
+		}
 		for i := 0; ok && i < len(got); i++ {
 			ok = got[i].pgno == scan.Frames[i].Pgno && got[i].commit == scan.Frames[i].Commit
 		}
@@ -779,7 +793,7 @@ func c17C(c *core.Case) {
 			return
 		}
 		// refusing to open is allowed for WALs the reference also considers invalid
-		if scan.HeaderOK && scan.PageSize == ps {
+		if scan.HeaderOK && scan.PageSize == ps && !page0 {
 			c.Violate("C17/open-failed-on-valid-wal", fmt.Sprintf("Store.Open failed although the WAL header is valid: %v (%s)", err, op), detail)
 		}
 		c.Distinct(fmt.Sprintf("C/%s/ps%d/be%v/open-error", op, ps, be))
@@ -793,9 +807,18 @@ func c17C(c *core.Case) {
 		c.Violate("C17/write-outside-pages", fmt.Sprintf("checkpoint of a %s WAL wrote pages %v outside the database's pages (limit %d)", op, watch.outside, lim), detail)
 		return
 	}
+	if fi, err := os.Stat(filepath.Join(dbdir, "database")); err == nil && fi.Size() > int64(lim+1)*int64(ps) {
+		c.Violate("C17/write-outside-pages", fmt.Sprintf("after the checkpoint of a %s WAL the database file has %d bytes: more than %d pages of %d bytes", op, fi.Size(), lim, ps), detail)
+		return
+	}
 	if scan.HeaderOK && scan.PageSize == ps {
 		dbb, _ := os.ReadFile(filepath.Join(dbdir, "database"))
 		gotImg := ref.ImageFromBytes(ps, dbb)
+		if page0 {
+			// (either reading of the hostile transaction is acceptable: not compared)
+			c.Distinct(fmt.Sprintf("C/page0/ps%d/be%v/opened", ps, be))
+			return
+		}
 		if _, n2, _, ok := ref.HeaderInfo(dbb); ok && n2 != 0 && n2 <= gotImg.PageN {
 			gotImg.Truncate(n2)
 		}
